@@ -145,6 +145,13 @@ class Run:
         if model is not None:
             cov["source_digest"] = model.digest
             cov["modules"] = sorted(model.modules)
+            # what was brought to a canonical spelling in memory before the rules ran (sa/canon.py, import flattening, sa/desugar.py)
+            norm_ = {}
+            for k_, v_ in (("canonical_spelling", getattr(model, "canonical", None)), ("private_imports_flattened", getattr(model, "flattened", None)),
+                           ("desugared", getattr(model, "desugared", None))):
+                if v_:
+                    norm_[k_] = v_
+            cov["normalisations"] = norm_
         ev = {
             "property_id": self.prop,
             "tier": self.tier,
